@@ -193,9 +193,9 @@ def check(ctx):
 
     def cumsum_case(axis, mw=None):
         def thunk():
-            from .c09 import _models
+            from .c09 import cumsum_evaluator, _models
 
-            ev = Evaluator(P, models=_models(), attr_models={("DataArray", "chunks"): lambda ev, o, n: TOP})
+            ev = cumsum_evaluator(P)
             ev.run_paths(cfi, lambda: dict(self=make_grid(("AX", "AY")), da=make_da("da", [Sym("t"), dimsym("AX", "center"), dimsym("AY", "center")]), axis=axis, to=None, boundary=None,
                                            fill_value=None, metric_weighted=mw, keep_coords=False))
             return [ev]
